@@ -49,6 +49,16 @@ Check ==
         /\ IF e.inj > 0 /\ Blocking(e)
            THEN Chk(e, "FailureReported", Len(Errs(e)) > 0 \/ (e.ev # "Log" /\ e.retk = "err")) /\ Cnt(1, TRUE)
            ELSE TRUE
+        \* ... also a failure that the environment causes (nothing injected): when a record of this call lands behind content
+        \* that already exceeded the size limit, the rotation that was due has not taken place - that must have been reported
+        /\ IF HasObs(e) /\ e.ev = "Log" /\ Ok(e) /\ cc.rot /\ cc.size >= 0 /\ cc.mode = "direct" /\ e.inj = 0
+           THEN LET F0 == Untwin(e.obs.files) IN
+                /\ Chk(e, "SkippedRotationReported",
+                       (\E j \in 1..Len(F0) : Len(F0[j].recs) > 1 /\ F0[j].recs[Len(F0[j].recs)][1] = e.id
+                                                /\ SumLen(F0[j].recs, Len(F0[j].recs) - 1) > cc.size)
+                           => Len(Errs(e)) > 0)
+                /\ Cnt(8, Len(Errs(e)) > 0)
+           ELSE TRUE
         /\ IF ~HasObs(e) THEN TRUE ELSE
            LET F == Untwin(e.obs.files)     \* an unfinished .gz next to its original does not count
                S == Stream(F)
